@@ -301,7 +301,7 @@ func runIntegJob(c *Ctl, job *Job, idx int, res *RunResult) {
 	prof := defaultIntegProfile()
 	gen := IntegGen{MaxTasks: 3, MaxCmd: 3, MaxVar: 3, MaxHook: 2, CondProb: 20, AllowProb: 35, FailProb: 25, NotFoundPct: 10,
 		HookFailPct: 20, OutputProb: 30, StderrProb: 20, PipelinePct: 40, DurMax: 120, Names: "simple",
-		StageGen: SchedGenParams{MaxStages: 4, NestProb: 15, FailProb: 0, AllowProb: 30, CondProb: 15, MaxDepth: 1}}
+		StageGen: SchedGenParams{MaxStages: 4, NestProb: 15, FailProb: 0, AllowProb: 30, CondProb: 15, MaxDepth: 1, NoTrueCondWithDeps: true}}
 	if thorough {
 		gen.MaxTasks = 5
 		gen.MaxHook = 3
